@@ -273,6 +273,50 @@ def _patch_crosshair():
     _PATCHED = True
 
 
+def native_if_concrete(x):
+    """x itself, or - if x is a CrossHair symbolic string all of whose code points are concrete ints - the equal native str.
+    (Engine optimisation without change of meaning.)"""
+    import sys
+
+    m = sys.modules.get("crosshair.libimpl.builtinslib")
+    if m is None or type(x) is str:
+        return x
+    from crosshair.tracers import NoTracing
+
+    with NoTracing():
+        if type(x) is not m.LazyIntSymbolicStr:
+            return x
+        pts = x._codepoints
+        n = _concrete_len(pts)
+        if n is None or n > 8192:
+            return x
+        out = []
+        try:
+            for k in range(n):
+                c = pts[k]
+                if type(c) is not int:
+                    return x
+                out.append(c)
+        except BaseException as e:
+            if type(e).__name__ != "CrossHairInternal":
+                raise
+            return x
+        return "".join(map(chr, out))
+
+
+def concretize_tokens(tokens):
+    """Replace fully concrete symbolic-typed string fields of tokens (content, markup, info, attrs values) by native strs."""
+    for t in tokens:
+        t.content = native_if_concrete(t.content)
+        t.markup = native_if_concrete(t.markup)
+        t.info = native_if_concrete(t.info)
+        if t.attrs:
+            for k in list(t.attrs):
+                t.attrs[k] = native_if_concrete(t.attrs[k])
+        if t.children:
+            concretize_tokens(t.children)
+
+
 def _install_concretizers():
     """Engine optimisation without change of meaning: URL normalisation/validation and reference-label normalisation are regex-
     and case-mapping-heavy; a destination or label is a slice of the (symbolic-typed) source and costs 30-100 CPU-s per call in
